@@ -21,6 +21,11 @@ def run_check(prop, tier, repo):
     check = Check(prop, tier, repo)
     try:
         mod.run(check, repo, tier)
+        # every obligation is decided on the unchanged tree (confirmed); an obligation the analysis can no longer
+        # decide is a construct it does not understand: fail closed, never pass silently
+        und = [w for r in check.rules.values() for w in r.get("undecided_list", [])]
+        if und and not check.findings:
+            check.floor_failures.append(f"{sum(r['undecided'] for r in check.rules.values())} obligation(s) could not be decided, e.g. {und[0][:200]}")
         if check.floor_failures and not check.findings:
             return analysis_error(prop, tier, "; ".join(check.floor_failures))
         for m in check.floor_failures:
